@@ -18,7 +18,7 @@ meta = json.load(open(meta_p)) if os.path.exists(meta_p) else {}
 meta.update({'property': prop, 'demo_passes_without_patch': r0.returncode == 0, 'demo_fails_with_patch': r1.returncode != 0,
              'demo_output_with_patch': (r1.stdout + r1.stderr)[-600:]})
 if tests:
-    t = run('/venv/bin/python -m pytest -q -p no:cacheprovider --timeout=900 -n 8 2>&1 | tail -15', timeout=7200)
+    t = run('/venv/bin/python -m pytest -q -p no:cacheprovider --timeout=900 -n 5 2>&1 | tail -15', timeout=7200)
     tail = t.stdout[-1500:]
     meta['tests_with_patch_tail'] = tail
     failed = [l for l in tail.splitlines() if l.startswith('FAILED')]
